@@ -6,6 +6,14 @@ NOTES = ('Static analysis only: every verdict is computed from the ast of /repo/
          'Exit 2 + ANALYSIS-ERROR means the analysis could not decide (never a verdict).')
 
 CHECKS = {
+    'C09': {
+        'level': 'History independence is decided on a table of operation sequences (setter changes / restores, shared step generator, '
+                 'warm rule cache with neighbouring ratios and sibling rows, repeated calls with other arguments) by comparing the abstract '
+                 'result for a symbolic f with that of a fresh object; plus rule-cache seeding / writer check, shared-default inventory and '
+                 'in-place-write check of inputs. The scenario table is finite; sequences outside it are not decided.',
+        'note': 'Trusted: determinism of numpy/scipy kernels, GIL-atomic dict operations (thread clause is argued, not explored).',
+        'technique': 'abstract interpretation of operation sequences over the exact function-value domain; equality of abstract results with a fresh object',
+    },
     'C03': {
         'level': 'Jacobian difference quotients: one-coordinate perturbation and Taylor signature of the paired scalar rule (exact on affine '
                  'maps) for all configuration classes, end-to-end runs in 2 variables; shape / axis bookkeeping of _expand_steps, _vstack and '
